@@ -42,7 +42,7 @@ def shard(mods, n):
     return [s for s in out if s]
 
 
-def run_sharded(mods, jobs=6, timeout=150):
+def run_sharded(mods, jobs=6, timeout=90):
     """run modules in parallel subprocess shards.  pyanalyze does not terminate (in any useful time)
     on a few generated programs and cannot be interrupted from inside the process, so a shard that
     exceeds its time limit is re-run module by module with a short limit; modules that still do not
@@ -61,7 +61,7 @@ def run_sharded(mods, jobs=6, timeout=150):
             return [o]
         outs = []
         for m in shard_mods:
-            o = one([m], 45)
+            o = one([m], 25)
             outs.append(o if o is not None else {"results": [{"id": m["id"], "timeout": True, "fails": [], "counts": {}}]})
         return outs
 
@@ -131,6 +131,11 @@ def run(tier: str, replay: str | None = None):
         for i in range(n_mod):
             src, calls, ptypes = G.gen_module(rng, per, hist)
             mods.append({"id": f"g{i}", "src": src, "calls": calls, "via_annotate_code": False})
+        # composite variables (attribute / subscript chains, narrowed, then reassigned through the same path)
+        crng = random.Random(lib.seed() * 7919 + 4101)
+        for i in range(4 if tier == "quick" else 40):
+            src, calls = G.gen_composite_module(crng, 12, hist)
+            mods.append({"id": f"comp{i}", "src": src, "calls": calls})
     by_id = {m["id"]: m for m in mods}
 
     # 3. run implementation + CPython + oracle (subprocess shards)
